@@ -299,6 +299,7 @@ def _replacement(ctx):
     depends = ret.has_field("ChunkStore", "hosts") or ret.has_field("ChunkStore", "proxy_addresses") or ret.has_call("get_partner_host") or any("partner" in (b.local_name(l) or "") for l in ret.locals)
     ctx.check(depends, "C12.D3", "replacement-ignores-partner-host", site(b), ok="the replacement choice depends on the surviving partner's host",
               bad="generate_new_free_proxy chooses the replacement from the failed proxy's own host links only; the surviving partner's host never flows into the choice, so the new proxy can land on the partner's host although another host has a free proxy")
+    _partner_hard_excluded(ctx, b)
     _partner_index(ctx)
     _failover_attempted(ctx)
     _link_table_rows(ctx)
@@ -335,6 +336,44 @@ def _field_index_reads(b, du, field):
 
 def _idx_local(e):
     return e["idx"] if isinstance(e, dict) and "idx" in e else None
+
+
+def _partner_hard_excluded(ctx, b):
+    """`a host different from the partner's whenever one has a free proxy`: the partner's host is removed from the candidates
+    before the best one is picked (and only an empty result falls back to all hosts).  As a mere tie-breaker of the
+    ranking it loses against a less linked partner host."""
+    F = ctx.F
+    fam = [x for x in F.all_bodies(bins=False) if x.path == b.path or x.path.startswith(b.path + "::{closure")]
+    picks = []
+    for x in fam:
+        dx = DefUse(x)
+        for bb, t in x.calls():
+            d = callee_decl(t) or ""
+            if d.rsplit("::", 1)[-1] in ("min_by", "min_by_key", "max_by", "max_by_key", "min", "max") and d.startswith("std::iter::Iterator::"):
+                picks.append((x, dx, bb, t))
+    if not picks:
+        ctx.info("C12.D3", "partner-hard-excluded", "no iterator min/max selection in generate_new_free_proxy: exclusion not decided")
+        return
+    ok = False
+    for x, dx, bb, t in picks:
+        sl = dx.slice_operand(t["args"][0])
+        fbbs = sl.decls.get("std::iter::Iterator::filter", set()) | sl.calls.get("std::iter::Iterator::filter", set())
+        for fb in fbbs:
+            ft = x.blocks[fb].term
+            # the closure given to this filter
+            csl = dx.slice_operand(ft["args"][1], deep=False) if len(ft["args"]) > 1 else None
+            cl_paths = [norm(st["rv"]["def"]) for bb2, i, st in x.assigns() if st["rv"]["k"] == "agg" and st["rv"].get("ak") == "closure" and csl is not None and st["place"]["l"] in csl.locals]
+            for cp in cl_paths:
+                cb = F.bodies.get(cp)
+                if cb is None:
+                    continue
+                cdu = DefUse(cb)
+                for b3, t3 in cb.calls():
+                    if (callee_decl(t3) or "") in ("std::cmp::PartialEq::ne", "std::cmp::PartialEq::eq"):
+                        if any(cdu.slice_operand(a).captures or cdu.slice_operand(a).has_param(1) for a in t3["args"]):
+                            ok = True
+    ctx.check(ok, "C12.D3", "partner-hard-excluded", site(b), ok="the candidates are filtered by an equality test against a captured host before the best one is picked",
+              bad="no equality filter in front of the min/max pick: the partner's host is at best a tie-breaker, so a less linked partner host wins although another host has a free proxy and both halves of the chunk land on one host")
 
 
 def _symbolic_partner(b, du):
